@@ -601,6 +601,9 @@ def ods_dump(path, mode="hash"):
             res["sheets"] = [[n, [hashlib.sha1(json.dumps(r).encode()).hexdigest()[:12] for r in rows]] for n, rows in sheets]
         with zipfile.ZipFile(path) as z:
             res["members"] = sorted(z.namelist())
+            # byte-level identity of the deterministic members (meta.xml carries the generation time)
+            res["raw"] = {n: hashlib.sha256(z.read(n)).hexdigest()[:16] for n in z.namelist()
+                          if n in ("content.xml", "styles.xml", "settings.xml", "META-INF/manifest.xml", "mimetype")}
     except Exception as exc:  # noqa: BLE001
         res["bad"] = f"{type(exc).__name__}: {exc}"[:300]
     return res
